@@ -378,7 +378,13 @@ def run_check(prop: str, tier: str, seed: int) -> int:
 
     # ---- minimum monitor counts: a disconnected monitor must not be vacuously green ----
     mins = dict(getattr(mod, "MIN_MONITORS", {}))
-    scale = 1 if tier == "quick" else int(getattr(mod, "THOROUGH_MIN_SCALE", 4))
+    scale = 1
+    if tier != "quick":
+        # the minimum counts are stated for the quick workload; scale them with the actual workload ratio of the tiers
+        qp, tp = mod.plan("quick").get("params", {}), plan.get("params", {})
+        ratios = [tp[k] / qp[k] for k in tp if k.startswith("n") and isinstance(tp.get(k), (int, float)) and isinstance(qp.get(k), (int, float)) and qp[k] > 0 and tp[k] > 0]
+        scale = max(1, int(0.75 * min(ratios))) if ratios else 1
+        scale = min(scale, int(getattr(mod, "THOROUGH_MIN_SCALE", scale)))
     for name, m in mins.items():
         if monitors.get(name, 0) < m * scale:
             problems.append("monitor %s evaluated %d times, expected at least %d" % (name, monitors.get(name, 0), m * scale))
